@@ -135,6 +135,7 @@ def compare(name, session, spec=None):
         for idx, count, size in lf.idx:
             assumptions += [idx >= 0, idx < count]
     session.feasible(f"{name}:admissible", assumptions, show=list(_vars_of(assumptions).values())[:6])
+    batched = []
     for lf in it.leaves:
         k = tuple(str(p) for p in lf.path)
         e = by_path.get((k, occ.get(k, 0)))
@@ -146,13 +147,16 @@ def compare(name, session, spec=None):
             want = build(pinned["const"], pinned["coeffs"])
             diff = z3.simplify((live_t if z3.is_expr(live_t) else z3.IntVal(live_t)) - want)
             if z3.is_int_value(diff) and diff.as_long() == 0:
-                session.rewritten += 1  # decided by term rewriting (identical linear normal forms)
+                session.rewritten += 1  # identical linear normal forms; also handed to the solver in one batched query below
+                batched.append((live_t if z3.is_expr(live_t) else z3.IntVal(live_t)) == want)
                 continue
             vs = list(_vars_of([diff]).values())
             session.holds(f"{label}:{what}", assumptions, diff == 0, show=vs)
         kind = layout.kind_json(lf.kind)
         if kind != e["kind"]:
             literal.append({"what": "kind chain differs", "field": lf.name, "live": kind, "pinned": e["kind"]})
+    if batched:
+        session.holds(f"{name}:all {len(batched)} offset/width equalities with identical normal forms", assumptions, z3.And(*batched), show=[])
     want_end = build(spec["end"]["const"], spec["end"]["coeffs"])
     session.holds(f"{name}:end", assumptions, (end if z3.is_expr(end) else z3.IntVal(end)) == want_end, show=list(_vars_of(assumptions).values())[:6])
     return literal
